@@ -23,7 +23,7 @@ use crate::{
     Args,
 };
 
-pub const DECODERS: [&str; 28] = [
+pub const DECODERS: [&str; 30] = [
     "cbor:makeCredential request",
     "cbor:makeCredential response",
     "cbor:getAssertion request",
@@ -52,6 +52,8 @@ pub const DECODERS: [&str; 28] = [
     "UnverifiedAssetLink::new",
     "public-suffix lookups",
     "RpIdVerifier",
+    "HmacSecretSaltOrOutput::try_from(&[u8])",
+    "single-byte conversions (status codes, flags, command bytes, id lengths)",
 ];
 
 // ---------------------------------------------------------------------------------------------
@@ -67,7 +69,7 @@ fn emitted_samples() -> &'static (Vec<Vec<u8>>, Vec<Vec<u8>>) {
         let mut authed = Vec::new();
         for k in 0..3u8 {
             let rig = Rig::ok(Disc::Full);
-            let mut client = rig.client(AuthCfg { counters: k % 2 == 0, hmac: HmacCfg::WithoutUv, hmac_mc: true, id_len: Some(16 + k * 20) });
+            let mut client = rig.client(AuthCfg { counters: k % 2 == 0, hmac: HmacCfg::WithoutUv, hmac_mc: true, id_len: Some(16 + k * 20), ..Default::default() });
             let origin = url("https://example.com");
             let mut o = creation_options(Some("example.com"), &[k; 10], "n", &[k; 32], vec![pk_param(coset::iana::Algorithm::ES256)]);
             o.public_key.extensions = Some(passkey_types::webauthn::AuthenticationExtensionsClientInputs { cred_props: Some(true), ..Default::default() });
@@ -192,6 +194,12 @@ fn seed_for(d: usize, rng: &mut Rng) -> Vec<u8> {
             fp.join(":").into_bytes()
         }
         26 => rng.pick(&["www.example.co.uk", "a.b.c.kobe.jp", "xn--55qx5d.cn", "example.com", "foo.ck"]).as_bytes().to_vec(),
+        28 => {
+            // AES-CBC output as a platform sends it: any multiple of 16, mostly the two specified sizes
+            let l = *rng.pick(&[32usize, 64, 32, 64, 0, 16, 48, 80, 96, 128, 160, 256, 1024, 4096]);
+            rng.bytes(l)
+        }
+        29 => vec![rng.byte()],
         _ => rng.pick(&["example.com", "login.example.co.uk", "localhost", "xn--bcher-kva.de"]).as_bytes().to_vec(),
     }
 }
@@ -403,6 +411,10 @@ fn corpus_case(k: u64) -> Case {
     }
 }
 
+fn rng_mut(r: &mut Rng) -> &mut Rng {
+    r
+}
+
 fn gen_case(seed: u64, idx: u64) -> Case {
     if idx < CORPUS {
         return corpus_case(idx);
@@ -586,6 +598,41 @@ fn gen_case(seed: u64, idx: u64) -> Case {
         (true, Some(p)) => format!("len-rewrite(array at {} -> huge)", if p.is_empty() { "top" } else { &p }),
         _ => mutation,
     };
+    // a map key written as a bignum (tag 2 / 3 with a byte string of 1..17 bytes) in front of the
+    // first entry of the top-level map of a valid message
+    if is_cbor(decoder) && choice % 11 == 3 {
+        let mut v = seed_for(decoder, rng_mut(&mut rng));
+        if let Some(first) = v.first().copied() {
+            if first >> 5 == 5 {
+                let ai = first & 0x1f;
+                let hdr_len = if ai < 24 { 1 } else if ai == 24 { 2 } else { 0 };
+                let ok = match ai {
+                    0..=22 => {
+                        v[0] = first + 1;
+                        true
+                    }
+                    24 if v.len() > 1 && v[1] < 255 => {
+                        v[1] += 1;
+                        true
+                    }
+                    _ => false,
+                };
+                if ok && hdr_len > 0 {
+                    let n = *rng.pick(&[1usize, 8, 9, 12, 16, 17]);
+                    let tag = *rng.pick(&[0xc2u8, 0xc3]);
+                    let mut key = vec![tag, 0x40 | n as u8];
+                    let mut body = rng.bytes(n);
+                    body[0] |= 1;
+                    key.extend(body);
+                    key.push(0x01); // value
+                    let tail = v.split_off(hdr_len);
+                    v.extend(key);
+                    v.extend(tail);
+                    return Case { decoder, mutation: format!("bignum-key(tag {} with {n} bytes)", tag & 0x1f), input: v, aux: vec![] };
+                }
+            }
+        }
+    }
     // decoder-specific extras
     match decoder {
         19 if choice % 5 == 0 && input.len() >= 7 => {
@@ -731,6 +778,18 @@ fn decode(c: &Case) -> bool {
             let i = DEFAULT_PROVIDER.is_effective_tld(&text);
             a > 0 || e || i
         }
+        28 => passkey_types::ctap2::extensions::HmacSecretSaltOrOutput::try_from(b.as_slice()).is_ok(),
+        29 => {
+            use passkey_types::ctap2::{Ctap2Code, Flags, StatusCode};
+            let x = b.first().copied().unwrap_or(0);
+            let s = u8::from(StatusCode::from(x)) == x;
+            let c = Ctap2Code::try_from(x).is_ok();
+            let f = Flags::try_from(x).is_ok();
+            let u = u8::from(passkey_types::u2f::Command::from(x));
+            let h = passkey_transports::hid::Command::try_from(x).is_ok();
+            let l = usize::from(passkey_authenticator::CredentialIdLength::from(x));
+            s && (c || f || h || u == x || l >= 16)
+        }
         _ => {
             let v = RpIdVerifier::new(DEFAULT_PROVIDER);
             let a = v.is_valid_rp_id(&text);
@@ -767,7 +826,7 @@ pub fn run(args: &Args) -> Report {
         "C15",
         &args.tier,
         args.seed,
-        "every public decoder (28: CTAP2 CBOR types, authenticator data, WebAuthn JSON types, base64 fields, U2F request parsers, CTAPHID packet sequences, COSE key converter, fingerprints, asset links, PSL lookups, RP-id verifier) fed seeded structure-aware mutations of valid encodings (truncate, extend, bit flips, byte sets, CBOR length-field rewrites to 0 / len+-1 / 2^16-1 / 2^24 / 2^28..2^64-1 with and without the tail, major-type swaps, 200..10000-deep nesting, duplicated keys, JSON token replacements, U2F length rewrites, HID packet splits of 0..200 bytes in any order) and random input of 0..64 KiB, in crash-isolating workers measuring panics, aborts, stack overflow, largest allocation request (> max(4 MiB, 64 x input)), peak live bytes (> max(16 MiB, 256 x input)) and thread CPU time (> max(0.5 s, 20 us x input); a case that never returns is killed after 5 s of process CPU); distinct by (decoder, mutation class, input hash); non-trivial when the input is a mutation of a valid encoding or is accepted",
+        "every public decoder (30: CTAP2 CBOR types, authenticator data, WebAuthn JSON types, base64 fields, U2F request parsers, CTAPHID packet sequences, COSE key converter, fingerprints, asset links, PSL lookups, RP-id verifier, hmac-secret salt parser, single-byte conversions) fed seeded structure-aware mutations of valid encodings (truncate, extend, bit flips, byte sets, CBOR length-field rewrites to 0 / len+-1 / 2^16-1 / 2^24 / 2^28..2^64-1 with and without the tail, major-type swaps, 200..10000-deep nesting, duplicated keys, bignum-tagged map keys, JSON token replacements, U2F length rewrites, HID packet splits of 0..200 bytes in any order) and random input of 0..64 KiB, in crash-isolating workers measuring panics, aborts, stack overflow, largest allocation request (> max(4 MiB, 64 x input)), peak live bytes (> max(16 MiB, 256 x input)) and thread CPU time (> max(0.5 s, 20 us x input); a case that never returns is killed after 5 s of process CPU); distinct by (decoder, mutation class, input hash); non-trivial when the input is a mutation of a valid encoding or is accepted",
     );
     rep.assumptions.push("wall time never decides; CPU time does. A worker idle (no CPU) for 120 s is killed and the case reported as inconclusive".into());
     let engine = args.engine.clone().unwrap_or_else(|| "native".into());
